@@ -449,19 +449,24 @@ func (proj *Project) saveTargetInfo(label *label.Label, info targetInfo) error {
 	if err := os.MkdirAll(filepath.Dir(path), 0755); err != nil {
 		return err
 	}
+	verifPoint("save.after-mkdir", label.String())
 
 	f, err := os.CreateTemp(proj.temp, "")
 	if err != nil {
 		return err
 	}
 	tempName := f.Name()
+	verifPoint("save.after-create-temp", label.String())
 
 	if err = json.NewEncoder(f).Encode(info); err != nil {
 		return err
 	}
+	verifPoint("save.after-write", label.String())
 	if err = f.Close(); err != nil {
 		return err
 	}
+	verifPoint("save.after-close", label.String())
+	defer verifPoint("save.after-rename", label.String())
 
 	return os.Rename(tempName, path)
 }
